@@ -4,6 +4,7 @@ import (
 	"fmt"
 	"os"
 	"runtime/debug"
+	"sort"
 	"time"
 
 	"github.com/orda-io/orda/client/pkg/errors"
@@ -317,8 +318,80 @@ func (w *world) stepSnap(i int) (J, J, bool) {
 	w.reps = append(w.reps, nr)
 	if !hung {
 		guarded(obs, func() { nr.post(obs) })
+		obs["resetTwins"] = resetTwins(src)
 	}
 	return cmd, obs, hung
+}
+
+// resetTwins: what server/snapshot/manager.go does with a stored snapshot — import it into a created instance and call
+// ResetWired() — must not change how the copy treats LATER local operations: two fresh copies of `src`, one reset after the
+// import and one not, execute the same local operation (one that competes with state already in the snapshot) and are compared.
+// Implementation-side only (the model's world does not contain these two instances).
+func resetTwins(src *rep) J {
+	out := J{}
+	defer func() {
+		if r := recover(); r != nil {
+			out["panic"] = fmt.Sprint(r)
+		}
+	}()
+	meta, snap, err := src.wired.GetMetaAndSnapshot()
+	if err != nil {
+		return out
+	}
+	mk := func(reset bool, idx int) *rep {
+		nr := newRep(src.typ, true, idx)
+		nr.wired.ResetWired()
+		if e := nr.wired.SetMetaAndSnapshot(meta, snap); e != nil {
+			return nil
+		}
+		if reset {
+			nr.wired.ResetWired()
+		}
+		return nr
+	}
+	a, b := mk(false, 9000), mk(true, 9001)
+	if a == nil || b == nil {
+		return out
+	}
+	firstKey := func(v interface{}) string {
+		m, ok := v.(map[string]interface{})
+		if !ok {
+			if mj, ok2 := v.(J); ok2 {
+				m = map[string]interface{}(mj)
+			}
+		}
+		keys := make([]string, 0, len(m))
+		for k := range m {
+			keys = append(keys, k)
+		}
+		sort.Strings(keys)
+		if len(keys) > 0 {
+			return keys[0]
+		}
+		return "rtk"
+	}
+	apply := func(r *rep) {
+		defer func() { _ = recover() }()
+		switch d := r.dt.(type) {
+		case orda.Counter:
+			_, _ = d.IncreaseBy(3)
+		case orda.Map:
+			_, _ = d.Put(firstKey(viewJ(d)), "rt")
+		case orda.List:
+			if d.Size() > 0 {
+				_, _ = d.Update(0, "rt")
+			} else {
+				_, _ = d.InsertMany(0, "rt")
+			}
+		case orda.Document:
+			_, _ = d.PutToObject(firstKey(viewJ(d)), "rt")
+		}
+	}
+	apply(a)
+	apply(b)
+	out["plain"] = viewJ(a.dt)
+	out["reset"] = viewJ(b.dt)
+	return out
 }
 
 func (w *world) stepObs(i int) (J, J, bool) {
